@@ -362,8 +362,18 @@ class FindInstancePeaksGroundTruth(L.LightningModule):
         inst = (
             batch["instances"].unsqueeze(dim=-4).float()
         )  # (batch, 1, 1, n_inst, nodes, 2)
+        # `centroids` are in original-image coordinates (already divided by
+        # `eff_scale`) while `instances` are in size-matched coordinates
+        # (multiplied by `eff_scale`): compare them in the same coordinate system.
+        cent = batch["centroids"] * (
+            batch["eff_scale"]
+            .unsqueeze(dim=1)
+            .unsqueeze(dim=2)
+            .unsqueeze(dim=3)
+            .to(batch["centroids"].device)
+        )
         cent = (
-            batch["centroids"].unsqueeze(dim=-2).unsqueeze(dim=-3).float()
+            cent.unsqueeze(dim=-2).unsqueeze(dim=-3).float()
         )  # (batch, 1, n_centroids, 1, 1, 2)
         dists = torch.sum(
             (inst - cent) ** 2, dim=-1
